@@ -10,6 +10,8 @@ template, i.e. the identity, and that template is itself translated as `scalarop
   compute_init_info                 the value of m_info when the pivot loop is entered (statement before the loop)
   compute_break                     the loop's `if (m_info != Successful) break`
   compute_final_info                the trailing `if (k == m_n - 1) {... if (akk == 0) m_info = NumericalIssue }`
+  compute_prologue, compute_prologue_conditional, compute_perm_reset_args
+                                    which members compute() resets before the pivot loop, unconditionally / under a condition
   dense_set_shift_guard             DenseSymShiftSolve::set_shift : the throwing check after compute()
   symshift_factorize_ok, symshift_set_shift_guard   SymShiftInvertHelper<dense,...>::factorize return + SymShiftInvert::set_shift check
 Complex Hermitian instantiation (used by Model/BKLDLTC.lean):
@@ -188,6 +190,72 @@ def symshift_guard(tu, t):
     res += 'def symshift_set_shift_guard (success : Bool) : Res Unit :=\n' + txt
     return res
 
+# ---------------------------------------------------------------- the prologue of compute(): which members are reset, and whether unconditionally
+def _member_write(tu, x):
+    """(member, action) if the expression statement x writes a member / calls a method on a member or on this; else None"""
+    x = unwrap(x)
+    k = x['kind']
+    if k in ('BinaryOperator', 'CompoundAssignOperator') and x.get('opcode', '').endswith('='):
+        l = unwrap(x['inner'][0])
+        if x['opcode'] in ('==', '!=', '<=', '>='): return None
+        if l['kind'] == 'MemberExpr': return (l['name'], x['opcode'])
+        return None
+    if k in ('CallExpr', 'CXXMemberCallExpr'):
+        cal = unwrap(x['inner'][0])
+        ck = cal['kind']
+        if ck in ('MemberExpr', 'CXXDependentScopeMemberExpr'):
+            meth = cal.get('name') or cal.get('member')
+            obj = unwrap(cal['inner'][0]) if cal.get('inner') else {'kind': 'CXXThisExpr'}
+            if obj['kind'] == 'CXXThisExpr': return ('this', meth)
+            if obj['kind'] == 'MemberExpr': return (obj['name'], meth)
+            return None
+        if ck == 'UnresolvedMemberExpr':
+            src = tu.src_text(cal).strip()
+            return ('this', src.split('(')[0].split('.')[-1].split('>')[-1].strip())
+        return None
+    return None
+
+def _all_writes(tu, node, acc):
+    w = None
+    if node.get('kind') in ('BinaryOperator', 'CompoundAssignOperator', 'CallExpr', 'CXXMemberCallExpr'):
+        w = _member_write(tu, node)
+    if w: acc.append(w)
+    for c in node.get('inner', []) or []:
+        if isinstance(c, dict): _all_writes(tu, c, acc)
+    return acc
+
+def compute_prologue(tu, t):
+    """BKLDLT::compute, statements before the pivot loop: the top-level (unconditional) member writes in order, the member writes
+    nested under a condition, and the argument text of m_perm.setLinSpaced"""
+    node = tu.find('BKLDLT::compute')
+    ss = body_of(node)
+    fors = [i for i, s in enumerate(ss) if s['kind'] == 'ForStmt']
+    if len(fors) != 1: raise XlateError('compute: expected exactly one loop')
+    top, cond, args = [], [], None
+    for s in ss[:fors[0]]:
+        k = s['kind']
+        if k == 'DeclStmt': continue
+        if k == 'IfStmt':
+            parts = s['inner']
+            thn = unwrap(parts[1])
+            if len(parts) == 2 and (thn['kind'] == 'CXXThrowExpr' or (thn['kind'] == 'CompoundStmt' and all(unwrap(c)['kind'] == 'CXXThrowExpr' for c in thn.get('inner', [])))):
+                continue        # argument check that only throws
+            _all_writes(tu, s, cond); continue
+        if k in ('ForStmt', 'WhileStmt', 'DoStmt', 'SwitchStmt', 'CompoundStmt', 'CXXTryStmt'):
+            _all_writes(tu, s, cond); continue
+        w = _member_write(tu, s)
+        if w is None: raise XlateError('compute prologue: statement not understood: ' + k)
+        top.append(w)
+        if w == ('m_perm', 'setLinSpaced'):
+            src = tu.src_text(unwrap(s)); args = ' '.join(src[src.index('(') + 1: src.rindex(')')].split())
+    q = lambda l: '[' + ', '.join(f'("{a}", "{b}")' for a, b in l) + ']'
+    # (gen_module puts its own doc comment in front of the first declaration)
+    return (f'def compute_prologue : List (String × String) :=\n  {q(top)}\n\n'
+            '/-- member writes before the pivot loop that are nested under a condition / loop (argument checks that only throw are not listed) -/\n'
+            f'def compute_prologue_conditional : List (String × String) :=\n  {q(cond)}\n\n'
+            '/-- the arguments of `m_perm.setLinSpaced(...)` -/\n'
+            f'def compute_perm_reset_args : String :=\n  "{args if args is not None else ""}"')
+
 # ---------------------------------------------------------------- complex Hermitian instantiation
 def cplx_expr(x, pname):
     """tiny expression emitter for the bodies of ScalarOp<std::complex<RealScalar>>::conj / ::real (std::complex = pair)"""
@@ -304,6 +372,7 @@ BK = [
     dict(lean='ge1_status', header=H, custom=ge_status('1x1'), path='BKLDLT::gaussian_elimination_1x1'),
     dict(lean='ge2_status', header=H, custom=ge_status('2x2'), path='BKLDLT::gaussian_elimination_2x2'),
     dict(lean='compute_status', header=H, custom=compute_status, path='BKLDLT::compute'),
+    dict(lean='compute_prologue', header=H, custom=compute_prologue, path='BKLDLT::compute'),
     dict(lean='scalarop_cplx', header=H, custom=scalarop_cplx, path='ScalarOp<std::complex<RealScalar>>::conj / ::real'),
     dict(lean='copy_fast_path', header=H, custom=copy_fast_path, path='BKLDLT::copy_data'),
     dict(lean='solve_inplace_2x2_h', header=H, custom=solve2_h, path='BKLDLT::solve_inplace_2x2'),
